@@ -8,7 +8,7 @@
     ring base width n result                              -> ok | bad
   run monitor / component ties (the driver keeps the observed state `St Ind Int`)
     cfg <std|de|alps> <elitism> <rounds> <mate_zone> <age_gap>       -> ok
-    state <init|restart|check|aftergen> gen lastImp bestFit <ind> nLayers (allowed size <ind>*)*
+    state <init|restart|shake|check|aftergen> gen lastImp bestFit <ind> nLayers (allowed size <ind>*)*
     sel <tour|alps|rand> n (l i)*                         -> ok | bad:<clause>
     step <family> n (l i)* <ind off> k (l i <ind>)* gen lastImp bestFit <ind best>
   tune
@@ -126,6 +126,9 @@ def rdState : Rd (St Ind Int) := do
   rdEnd
   pure ⟨⟨layers.reverse, allowed.reverse⟩, ⟨best, bestFit, lastImp, gen⟩⟩
 
+/-- what identifies an observed individual independently of the data its score was computed on -/
+def indKey (x : Ind) : Nat × Nat × Bool := (x.age, x.sig, x.valid)
+
 def fitAt (p : Pop Ind) (c : Coord) : Int := ((p.get? c).map Ind.fit).getD 0
 
 def alpsKey (d : DState) (p : Pop Ind) (c : Coord) : Bool × Int :=
@@ -230,6 +233,16 @@ def handle (d : DState) (ts : List String) : DState × String :=
         let t := restartB d.cfg (clearTblOf GenEvo.clearSets GenEvo.clearNats) ⟨0, 0, 0, false⟩ 0 d.st st'
         let i := runInvB d.cfg d.shape0 st'
         ({ d with st := st' }, if !t then "bad:restart" else if !i then "bad:inv" else "ok")
+      | "shake" =>
+        -- `shake(gen)` returned true: the same individuals at the same places, their scores observed
+        -- again under the new data; last_imp / gen unchanged; best-so-far fitness = score of the
+        -- best-so-far individual under the new data (the re-evaluation of the shake branch)
+        let t := shakeB d.cfg d.st st'
+        let same := decide (st'.pop.allowed = d.st.pop.allowed) &&
+          decide (st'.pop.layers.map (·.map indKey) = d.st.pop.layers.map (·.map indKey)) &&
+          decide (indKey st'.sum.best = indKey d.st.sum.best)
+        let i := runInvB d.cfg d.shape0 st'
+        ({ d with st := st' }, if !t then "bad:shake" else if !same then "bad:shake-moved" else if !i then "bad:inv" else "ok")
       | "check" =>
         (d, if decide (d.st = st') then (if runInvB d.cfg d.shape0 st' then "ok" else "bad:inv")
             else "bad:state-diverged")
